@@ -37,7 +37,10 @@ ASSUMPTIONS = [
 TECHNIQUE = ("Coq proof about the executable parser model (phase order of get_matches_with; frame theorems for add_env / "
              "add_defaults / add_default_value; parse-loop invariant 'every command-line entry is labelled CommandLine'; "
              "set_source monotone; validate and args_present blind to DefaultValue entries; default-missing injection iff "
-             "the occurrence is empty; source tables regenerated from action.rs / value_source.rs) + extracted-model / "
+             "the occurrence is empty; source tables regenerated from action.rs / value_source.rs; round 2: whole-line "
+             "statements by composition with the un-parser theorem C02_unparse (class wf_inv), C10's line invariant K "
+             "(all token lists) and C09's globals closed form; a simulation proof that no function of the command-line "
+             "phase, the env phase or the validator reads a default value) + extracted-model / "
              "implementation correspondence + python precedence oracle on the implementation")
 LEVEL_TEXT = ("Machine-checked theorems (Coq 8.16, closed under the global context) about the executable model of "
               "Parser::{get_matches_with, add_env, add_defaults, add_default_value, react, start_custom_arg, parse (token loop)}, "
@@ -46,14 +49,29 @@ LEVEL_TEXT = ("Machine-checked theorems (Coq 8.16, closed under the global conte
               "add_defaults after add_env after the command line; per argument the entry is the command-line one untouched, "
               "else the environment value labelled EnvVariable, else the first matching conditional default / plain default "
               "labelled DefaultValue, else absent; DefaultValue entries never start groups, never remove overrides and do not "
-              "change the validator's verdict or args_present.  The model is tied to clap_builder by running the extracted model "
+              "change the validator's verdict or args_present.  Round 2, against the LINE: for every rendered invocation tree "
+              "of C02's class (wf_inv) and every argument of every level of a successful try_get_matches_from, exactly one "
+              "origin holds (C06_origin, C06_origin_globals): named on the line by an occurrence that survives the overrides "
+              "(source CommandLine, values = the line's) iff not that, else env set, else conditional/plain default, else no "
+              "entry; CommandLine iff named (C06_cmdline_iff_named); the missing-value default is stored iff the option's item "
+              "carries no value (C06_missing_value_line); two commands differing only in default values have the same "
+              "pre-defaults state, the same verdict and the same explicit entries, and -- when no default_value_if reads a changed "
+              "argument -- the same source and values for every unchanged argument (C06_defaults_noninterference, C06_defaults_unchanged_args, with "
+              "C06_phases_ignore_defaults for ALL commands); for every valid definition without short flag subcommands and "
+              "EVERY token list a CommandLine label implies that a token names the argument.  The model is tied to clap_builder "
+              "by running the extracted model "
               "and the real crate (debug build) on the same generated cases on every run and comparing per level the (id, "
               "value_source, raw occurrences) lists in ids() order and args_present; a python oracle written from the "
               "property text checks the implementation's output directly.")
 LEVEL_NOTE = ("Trusted: Coq kernel, extraction (ExtrOcamlBasic), OCaml driver, Rust harness, generators, python oracle. The "
               "per-argument theorems assume argument ids distinct from each other and from group ids (clap's debug assertions). "
               "'A conditional default fires' is defined as the code and documentation do: the other argument has an entry of any "
-              "source, so the result depends on the definition order (theorem C06_conditional_default_order_dependent).")
+              "source, so the result depends on the definition order (theorem C06_conditional_default_order_dependent).  "
+              "Whole-line iff / origin / non-interference theorems hold for C02's class wf_inv (no hyphen values, last, "
+              "trailing var args, terminators, require_equals, inference, flag or external subcommands, ignore_errors); outside "
+              "it only 'CommandLine => a token names it' is proved and the rest is differential.  'EnvVariable => not named on "
+              "the line' is refuted (C06_env_named_refuted: an override chain removes the occurrence, the environment re-adds "
+              "the argument; the real crate agrees).")
 
 REL_KINDS = {"ArgumentConflict", "MissingRequiredArgument", "MissingSubcommand", "DisplayHelpOnMissingArgumentOrSubcommand"}
 VALUE_KINDS = {"ValueValidation", "InvalidValue", "InvalidUtf8"}
